@@ -81,7 +81,8 @@ def gen_case(rng, tier, diff=False):
     c = {"size": size, "block_size": bs, "sector_size": ss, "blocks": blocks, "bat_offset": bat_off,
          "file_size": top * MB, "place": place, "mode": mode, "inter": inter, "salt": rng.randrange(1 << 30),
          "kind": "nodiff", "header_seq": rng.pick([[5, 7], [9, 3], [4, 4]])}
-    c["reqs"] = gen_requests(rng, size, bs, n=6, sector=ss, raw_align=ss, max_bytes=2_000_000)
+    c["reqs"] = gen_requests(rng, size, bs, n=6, sector=ss, raw_align=ss, max_bytes=2_000_000,
+                             big=(20 * MB if (bs >= 32 * MB and rng.chance(0.4)) else 0))
     return c
 
 
@@ -93,7 +94,7 @@ class VhdxSuite(ReaderSuite):
     shard = 15
 
     def generate(self, rng, tier):
-        n = 1200 if tier == "thorough" else 90
+        n = 1200 if tier == "thorough" else 70
         return [gen_case(rng, tier) for _ in range(n)]
 
     def build_files(self, case):
